@@ -19,7 +19,7 @@ Print Assumptions c17_data_never_matches_end.
 
 (** with nothing to do at end-of-input: DONE iff the program has already reached its end, else FAIL *)
 Theorem c17_end_without_transition : forall d q ts, nth_error (d_states d) q = Some (SNormal ts) -> select ts sym_end = None ->
-  step_tree d q sym_end = Leaf (LRet (if accepting d q then RDone else RFail) q false).
+  step_tree d q sym_end = Leaf (if accepting d q then LRet RDone q false else LRet RFail (fail_index d) false).
 Proof. exact end_no_transition. Qed.
 Print Assumptions c17_end_without_transition.
 
